@@ -181,7 +181,7 @@ def run(ctx):
         elif r.violated != "SchemeOK":
             raise tlc.MachineryError(f"the deviation '{scheme}' of RATTLE is not rejected by the symmetry check")
     records, wheres = [], {}
-    nsys = 6 if ctx.thorough else 3
+    nsys = 12 if ctx.thorough else 3
     nruns = 0
     notjudged = {}
     from cardillo.solver import Rattle
@@ -253,7 +253,7 @@ def run(ctx):
         except Exception as ex:
             notjudged[type(ex).__name__] = notjudged.get(type(ex).__name__, 0) + 1
         # (4) drift: long horizon, trend of the energy error against its oscillation
-        if si < (3 if ctx.thorough else 1):
+        if si < (4 if ctx.thorough else 1):
             try:
                 sys3 = system.deepcopy()
                 N = 3000 if ctx.thorough else 1200
